@@ -820,11 +820,28 @@ func (t *tap) dial(ctx context.Context, network, addr string, tc *tls.Config) (*
 	case "reject-retry":
 		inv.retry = []byte(fmt.Sprintf("RETRY|%s|%d", addr, inv.K))
 		inv.Retry = string(inv.retry)
-		return nil, &tls.ECHRejectionError{RetryConfigList: append([]byte{}, inv.retry...)}
+		return nil, wrapRejection(inv.Seq, &tls.ECHRejectionError{RetryConfigList: append([]byte{}, inv.retry...)})
 	case "reject-none":
-		return nil, &tls.ECHRejectionError{}
+		return nil, wrapRejection(inv.Seq, &tls.ECHRejectionError{})
 	}
 	return nil, fmt.Errorf("%w #%d", errScripted, inv.Seq)
+}
+
+// transportError is how a dialer other than tls.Dialer hands on the error of its handshake (quic-go wraps it).
+type transportError struct{ err error }
+
+func (e *transportError) Error() string { return "transport: " + e.err.Error() }
+func (e *transportError) Unwrap() error { return e.err }
+
+// wrapRejection returns the rejection bare (tls.Dialer), wrapped with %w, or inside an error type with Unwrap.
+func wrapRejection(seq int, rej *tls.ECHRejectionError) error {
+	switch seq % 3 {
+	case 1:
+		return fmt.Errorf("handshake with the server failed: %w", rej)
+	case 2:
+		return &transportError{rej}
+	}
+	return rej
 }
 
 func (t *tap) snapshot() []*invocation {
